@@ -103,6 +103,8 @@ pub struct Mon {
     pub venue_ops: HashMap<Pubkey, u64>,
     /// program panics (abort the transaction): (instruction, message | location | first program frame) -> count
     pub panic_sites: HashMap<(Kind, String), u64>,
+    /// C15 (chain): pauses accepted since the last daily reset of the global pause state
+    pub c15_succ: u8,
 }
 
 /// The part of the monitors' memory that describes the *committed* history (what has accumulated,
@@ -123,6 +125,7 @@ pub struct MonState {
     rcv_started_in_tx: HashSet<Pubkey>,
     pause_window: HashMap<Pubkey, (i64, i64)>,
     venue_ops: HashMap<Pubkey, u64>,
+    c15_succ: u8,
 }
 
 /// Program error codes (Anchor custom codes) the monitors need to recognise.
@@ -169,6 +172,7 @@ impl Mon {
             rcv_started_in_tx: self.rcv_started_in_tx.clone(),
             pause_window: self.pause_window.clone(),
             venue_ops: self.venue_ops.clone(),
+            c15_succ: self.c15_succ,
         }
     }
     pub fn restore_state(&mut self, s: MonState) {
@@ -184,6 +188,7 @@ impl Mon {
         self.rcv_started_in_tx = s.rcv_started_in_tx;
         self.pause_window = s.pause_window;
         self.venue_ops = s.venue_ops;
+        self.c15_succ = s.c15_succ;
     }
 
     /// One successfully executed marginfi instruction of a transaction that committed (or of a
@@ -222,7 +227,7 @@ impl Mon {
         if self.en("C20") {
             self.venue_on_ix(w, v, &info);
         }
-        if self.on.iter().any(|p| matches!(*p, "C07" | "C08" | "C12" | "C13" | "C14" | "C19")) {
+        if self.on.iter().any(|p| matches!(*p, "C07" | "C08" | "C12" | "C13" | "C14" | "C15" | "C18" | "C19")) {
             self.admin_on_ix(w, v, &info);
         }
     }
@@ -279,6 +284,9 @@ impl Mon {
         if let (Some(i), Some(code)) = (idx, code) {
             if self.en("C14") && i >= crate::chain::Chain::IX_SHIFT && i - crate::chain::Chain::IX_SHIFT < ixs.len() {
                 self.c14_reject(w, ixs, code, i - crate::chain::Chain::IX_SHIFT);
+            }
+            if self.en("C15") && i >= crate::chain::Chain::IX_SHIFT && i - crate::chain::Chain::IX_SHIFT < ixs.len() {
+                self.c15_reject(w, ixs, i - crate::chain::Chain::IX_SHIFT, code);
             }
         }
         if let (Some(ix), Some(code)) = (failing, code) {
